@@ -239,7 +239,7 @@ def scale_job(fam):
     return {"module": "MC_Scale", "spec": "Spec", "invariants": ["InvDup", "InvBig", "InvCanon", "InvRt", "Emit"],
             "constants": {"Fam": '"%s"' % fam},
             "quick": {"constants": {"Sizes": "{4, 9, 12, 17, 24, 25, 33, 65, 257}"}, "timeout": 300, "workers": 8},
-            "thorough": {"constants": {"Sizes": "{4, 5, 7, 8, 9, 10, 11, 12, 13, 15, 16, 17, 24, 25, 31, 32, 33, 64, 65, 128, 129, 255, 256, 257, 1000}"},
+            "thorough": {"constants": {"Sizes": "{4, 5, 7, 8, 9, 10, 11, 12, 13, 15, 16, 17, 24, 25, 31, 32, 33, 64, 65, 128, 129, 255, 256, 257}"},
                          "timeout": 2400, "workers": 8}}
 
 
